@@ -53,6 +53,8 @@ def _declared():
         (cirq.X(a) ** sympy.Symbol("s"), (), ()), (cirq.rz(sympy.Symbol("t")).on(c), (), ()), (cirq.CZ(a, c) ** sympy.Symbol("s"), (), ()),
         (cirq.Z(b).with_classical_controls(sympy.Symbol("k") + sympy.Symbol("m") > 0), (), ("k", "m")),
         (cirq.Y(b).with_classical_controls("m").with_tags("t"), (), ("m",)),
+        (cirq.Z(a).with_classical_controls(sympy.And(sympy.Eq(sympy.IndexedBase("k")[0], 1), sympy.Symbol("m") > 0)), (), ("k", "m")),   # a digit of one key AND the value of another
+        (cirq.Y(c).with_classical_controls(sympy.Symbol("m") + sympy.IndexedBase("k")[0] > 0), (), ("k", "m")),
         (gated_body, (), ("m",)),
         (gated_body.with_tags("t"), (), ("m",)),                                         # a tag around a sub-circuit that reads an outer key
         (cirq.CircuitOperation(cirq.FrozenCircuit(cirq.Z(a).with_classical_controls("k").with_tags("inner"))).with_tags("t", "u"), (), ("k",)),
